@@ -237,6 +237,9 @@ class Tracer:
             return self.roots(pl["l"], _proj_path(pl) + path, stack)
         if r == "agg":
             p = list(path)
+            # variant-sensitive: `(x as Ok).0` cannot come from an `Err{..}` aggregate
+            if p and p[0][0] == "v" and rv["kind"].get("vi") is not None and isinstance(p[0][1], int) and p[0][1] != rv["kind"]["vi"]:
+                return set()
             while p and p[0][0] == "v":
                 p.pop(0)
             if p and p[0][0] == "f" and p[0][1] < len(rv["a"]):
